@@ -49,7 +49,7 @@ def gen_world(rng, i, tier):
     # /dev/null links inside the tree are symbolic links and would offend the no-symlink rule by themselves:
     # keep them only when that rule is not active so that the enumeration stays single-fault
     if "symlink" in w["rules"]:
-        cons = set(consulted_of(w))
+        cons = set(consulted_of(w, seen=False))
         for n in w["nodes"]:
             if n["p"] == "$ROOT/cur":
                 continue          # the directory link through which a dotdot world is reached (never a consulted file)
@@ -65,12 +65,18 @@ def gen_world(rng, i, tier):
     return w
 
 
-def consulted_of(world):
+def consulted_of(world, seen=True):
+    """everything the read looks at in order: the consulted files and, between them, sub-directories that carry the
+    suffix (they are checked like the files next to them)"""
     read = world["read"]
     if read["ep"] == "readFile":
         return [read["path"]]
     m = gen.model_of(world)
-    return [] if m is None else m["consulted"]
+    return [] if m is None else (m["seen"] if seen else m["consulted"])
+
+
+def is_subdir(world, p):
+    return any(n["t"] == "d" and n.get("sub") and norm(n["p"]) == p for n in world["nodes"])
 
 
 def variants(world):
@@ -80,18 +86,23 @@ def variants(world):
     for k in gen.enum_positions(len(cons), world["attr_seed"]):
         p = cons[k]
         for r in world["rules"]:
+            if r == "symlink" and is_subdir(world, p):
+                continue          # a directory cannot be made the link itself here
             out.append(("%s@%d" % (r, k), {p: [r]}))
     r = Rng(world["attr_seed"])
     rnd = {}
     for p in cons:
         o = [x for x in ("owner", "group", "symlink") if r.chance(0.25)]
+        if is_subdir(world, p):
+            o = [x for x in o if x != "symlink"]
         if o:
             rnd[p] = o
     out.append(("random", rnd))
-    if cons and world["rules"]:
+    files = [p_ for p_ in cons if not is_subdir(world, p_)]
+    if files and world["rules"]:
         # the offending file is a symbolic link that leads nowhere: it cannot be opened, but it is looked at
         # (and refused) all the same
-        p = cons[r.randrange(len(cons))]
+        p = files[r.randrange(len(files))]
         rule = r.pick(world["rules"])
         out.append(("dangling-%s@%d" % (rule, cons.index(p)), {p: [x for x in ("owner", "group", "symlink") if x == rule or (x == "symlink" and "symlink" in world["rules"])], "__dangling__": [p]}))
     return out
@@ -103,7 +114,7 @@ def nodes_for(world, offences):
     for n in copy.deepcopy(world["nodes"]):
         p = norm(n["p"])
         off = offences.get(p, [])
-        if n["t"] != "d":
+        if n["t"] != "d" or n.get("sub"):
             n["uid"] = FOREIGN_U if "owner" in off else world["req_uid"]
             n["gid"] = FOREIGN_G if "group" in off else world["req_gid"]
         if p in offences.get("__dangling__", []):
